@@ -31,8 +31,8 @@ UNIT = {
         ('@file', 'prelude.rs'),
         (SR, ['impl<S> From<Rc<Function<S>>> for Target<S>'], {'methods': {'from': {'ret': 'r', 'ensures': ['r == Target::Function(function)']}}}),
         (SR, ['impl From<Unusable> for Error'], {'methods': {'from': {'ret': 'r', 'ensures': ['r == Error::Unusable(unusable)']}}}),
-        (SR, ['fn classify'], {'ret': 'r', 'rewrites': ['let-chain-first'],
-            'token_rewrites': [("name . contains ( '/' )", 'verif_contains_slash(name)')],
+        (SR, ['fn classify'], {'ret': 'r', 'rewrites': ['let-chain-nest?'],
+            'token_rewrites': [("name . contains ( '/' )", 'verif_contains_slash(name)', '*')],
             'ensures': [
                 # the POSIX search order: special built-in, function, other built-in, external utility; a name with a slash is a path
                 'match ' + KIND + ' { Kind::Special => r is Builtin && r->builtin.verif_type == Type::Special, Kind::Function => r is Function, Kind::OtherBuiltin => r is Builtin && r->builtin.verif_type != Type::Special, Kind::External => r is External }',
